@@ -465,7 +465,7 @@ func init() {
 	vk.Register(&vk.Spec{
 		ID:          "C10",
 		Level:       "fault_enumeration",
-		Rule:        "histories of 3..12 SIGHUP reloads of the real binary; every attempt is a valid PRNG configuration (sharing addresses with its predecessor) or carries one fault from the enumerated list {unreadable file, malformed YAML, bad listener type, address without port, address not an IP, duplicate listener, bad cipher in the i-th service, bad cipher in a legacy key, TCP/UDP bind failure at the j-th listener}; a bind failure is usually followed by a retry of the identical file; after every attempt the process' socket table and a sampled (listener, key) matrix incl. keys of earlier configurations are compared with the last loaded configuration; finally goroutines by creation site and fd count vs a fresh start; class = (fault, index, preceded-by-failure)",
+		Rule:        "histories of 3..12 SIGHUP reloads of the real binary; every attempt is a valid PRNG configuration (sharing addresses with its predecessor) or carries one fault from the enumerated list {unreadable file, malformed YAML, bad listener type, address without port, address not an IP, duplicate listener, bad cipher in the i-th service, bad cipher in a legacy key, TCP/UDP bind failure at the j-th listener}; a bind failure is usually followed by a retry of the identical file; after every attempt the process' socket table and a sampled (listener, key) matrix incl. keys of earlier configurations, keys of configurations that failed to load, and both secrets of ids that recur with a rotated secret are compared with the last loaded configuration; finally goroutines by creation site and fd count vs a fresh start; class = (fault, index, preceded-by-failure)",
 		Assumptions: []string{"synchronisation on the server's own log markers; no marker within 60 s is a violation (hang)", "root ignores file modes, so 'unreadable' is a directory in place of the file"},
 		Batches:     func(t string) int { return map[string]int{"quick": 5, "thorough": 20}[t] },
 		Parallel:    func(t string) int { return 5 },
